@@ -6,7 +6,8 @@
 (* compared with the reference BV.tla on all operands).  A 64-bit value is *)
 (* <<l3, l2, l1, l0>> (most significant first).  Small quantities (shift   *)
 (* amounts, field values, register numbers, byte values) are plain Nat.    *)
-(* JSON form of a word: [hi, lo].                                          *)
+(* JSON form of a word: [hi, lo].  The `@type` comments are for Apalache   *)
+(* (spec/apa/APA_W32.tla checks unbounded lemmas on these very operators).  *)
 (***************************************************************************)
 EXTENDS Naturals, Integers, Sequences, Bitwise
 CONSTANT L
@@ -26,7 +27,9 @@ IsWord(w) == /\ w \in Seq(Int)
 Mk(hi, lo) == <<hi, lo>>
 Hi(w) == w[1]
 Lo(w) == w[2]
+\* @type: Seq(Int);
 Zero  == <<0, 0>>
+\* @type: Seq(Int);
 AllOnes == <<MM, MM>>
 \* n is a Nat below 2^(2L) that TLC can hold (n < 2^31)
 FromNat(n) == <<(n \div M) % M, n % M>>
@@ -34,37 +37,51 @@ FromNat(n) == <<(n \div M) % M, n % M>>
 ToNat(w) == w[1] * M + w[2]
 IsSmall(w) == w[1] < (M \div 2)         \* value < 2^(2L-1): safe for ToNat at L = 16
 
+\* @type: (Seq(Int), Seq(Int)) => Bool;
 Eq(a, b) == a[1] = b[1] /\ a[2] = b[2]
+\* @type: (Seq(Int), Seq(Int)) => Bool;
 Lt(a, b) == a[1] < b[1] \/ (a[1] = b[1] /\ a[2] < b[2])
+\* @type: (Seq(Int), Seq(Int)) => Bool;
 Le(a, b) == a[1] < b[1] \/ (a[1] = b[1] /\ a[2] <= b[2])
+\* @type: Seq(Int) => Bool;
 IsZeroW(a) == a[1] = 0 /\ a[2] = 0
 
 WAnd(a, b) == <<a[1] & b[1], a[2] & b[2]>>
 WOr(a, b)  == <<a[1] | b[1], a[2] | b[2]>>
 WXor(a, b) == <<a[1] ^^ b[1], a[2] ^^ b[2]>>
+\* @type: Seq(Int) => Seq(Int);
 WNot(a)    == <<MM - a[1], MM - a[2]>>
 
+\* 2^e for e >= 0 (1 for a negative e: only ever evaluated there in a branch that is not taken; written this way
+\* because Apalache's constant folder visits both branches of an IF and rejects a negative literal exponent)
+\* @type: Int => Int;
+P2(e) == 2^(IF e > 0 THEN e ELSE 0)
 \* bit i (0 = lsb) of a word, as 0/1
-Bit(a, i) == IF i >= L THEN (a[1] \div 2^(i - L)) % 2 ELSE (a[2] \div 2^i) % 2
+\* @type: (Seq(Int), Int) => Int;
+Bit(a, i) == IF i >= L THEN (a[1] \div P2(i - L)) % 2 ELSE (a[2] \div 2^i) % 2
+\* @type: Seq(Int) => Int;
 TopBit(a) == a[1] \div (M \div 2)
 \* a<hi:lo> as a Nat; requires hi - lo + 1 <= L (result fits a limb) -- fields are at most 16 bits
 \* wide slices use SliceW below
+\* @type: (Seq(Int), Int, Int) => Int;
 Slice(a, hi, lo) ==
   IF lo >= L THEN (a[1] \div 2^(lo - L)) % 2^(hi - lo + 1)
   ELSE IF hi < L THEN (a[2] \div 2^lo) % 2^(hi - lo + 1)
   ELSE (a[2] \div 2^lo) + ((a[1] % 2^(hi - L + 1)) * 2^(L - lo))
 
 \* plain shifts (also defined, with carry, in the shift section below)
+\* @type: (Seq(Int), Int) => Seq(Int);
 LSLwF(a, n) ==
   IF n = 0 THEN a
   ELSE IF n >= WW THEN Zero
-  ELSE IF n >= L THEN <<(a[2] * 2^(n - L)) % M, 0>>
+  ELSE IF n >= L THEN <<(a[2] * P2(n - L)) % M, 0>>
   ELSE <<((a[1] * 2^n) % M) + ((a[2] * 2^n) \div M), (a[2] * 2^n) % M>>
+\* @type: (Seq(Int), Int) => Seq(Int);
 LSRwF(a, n) ==
   IF n = 0 THEN a
   ELSE IF n >= WW THEN Zero
-  ELSE IF n >= L THEN <<0, a[1] \div 2^(n - L)>>
-  ELSE <<a[1] \div 2^n, (a[2] \div 2^n) + ((a[1] % 2^n) * 2^(L - n))>>
+  ELSE IF n >= L THEN <<0, a[1] \div P2(n - L)>>
+  ELSE <<a[1] \div 2^n, (a[2] \div 2^n) + ((a[1] % 2^n) * P2(L - n))>>
 \* word-valued fields
 MaskW(hi, lo)         == LSLwF(LSRwF(AllOnes, WW - (hi - lo + 1)), lo)
 ExtractW(w, hi, lo)   == WAnd(LSRwF(w, lo), LSRwF(AllOnes, WW - (hi - lo + 1)))
@@ -73,16 +90,20 @@ InsertW(w, hi, lo, v) == WOr(WAnd(w, WNot(MaskW(hi, lo))), WAnd(LSLwF(v, lo), Ma
 -----------------------------------------------------------------------------
 (* addition *)
 \* <<result, carry_out, overflow>> of a + b + cin
+\* @type: (Seq(Int), Seq(Int), Int) => <<Seq(Int), Int, Int>>;
 AddC(a, b, cin) ==
   LET s0 == a[2] + b[2] + cin
       s1 == a[1] + b[1] + (s0 \div M)
+      \* @type: Seq(Int);
       r  == <<s1 % M, s0 % M>>
       c  == s1 \div M
       sa == a[1] \div (M \div 2)
       sb == b[1] \div (M \div 2)
       sr == r[1] \div (M \div 2)
   IN <<r, c, IF sa = sb /\ sr # sa THEN 1 ELSE 0>>
+\* @type: (Seq(Int), Seq(Int)) => Seq(Int);
 Add(a, b)  == AddC(a, b, 0)[1]
+\* @type: (Seq(Int), Seq(Int)) => Seq(Int);
 Sub(a, b)  == AddC(a, WNot(b), 1)[1]
 Neg(a)     == Sub(Zero, a)
 \* n a (small) integer, possibly negative
@@ -90,14 +111,17 @@ AddInt(a, n) == IF n >= 0 THEN Add(a, FromNat(n)) ELSE Sub(a, FromNat(-n))
 
 -----------------------------------------------------------------------------
 (* shifts; n is any Nat; the _C forms are for n >= 1 (as in the pseudocode) *)
+\* @type: (Seq(Int), Int) => Seq(Int);
 LSLw(a, n) == LSLwF(a, n)
+\* @type: (Seq(Int), Int) => Seq(Int);
 LSRw(a, n) == LSRwF(a, n)
 \* a word with the top n bits set (0 <= n <= WW)
+\* @type: Int => Seq(Int);
 TopMask(n) ==
   IF n = 0 THEN Zero
   ELSE IF n >= WW THEN AllOnes
-  ELSE IF n >= L THEN <<MM, M - 2^(WW - n)>>
-  ELSE <<M - 2^(L - n), 0>>
+  ELSE IF n >= L THEN <<MM, M - P2(WW - n)>>
+  ELSE <<M - P2(L - n), 0>>
 ASRw(a, n) ==
   IF n = 0 THEN a
   ELSE IF TopBit(a) = 1 THEN WOr(LSRw(a, n), TopMask(n)) ELSE LSRw(a, n)
